@@ -10,7 +10,8 @@ use altrios_core::uc;
 use serde::{Deserialize, Serialize};
 
 /// demand letters relative to the limits just published (DESIGN §2 DEM)
-pub const DEMANDS: [&str; 13] = ["0.6M", "0", "1e-6M", "0.3M", "M-", "M", "M+tol", "1.2M", "-0.5R", "-R", "-(R+D)/2", "-D", "-1.01D"];
+/// "-0.5aux": braking lighter than the auxiliary load (battery still discharging at its terminals while traction is negative)
+pub const DEMANDS: [&str; 14] = ["0.6M", "0", "1e-6M", "0.3M", "M-", "M", "M+tol", "1.2M", "-0.5R", "-R", "-(R+D)/2", "-D", "-1.01D", "-0.5aux"];
 /// the last entry (20 s) is used by C01 only: it lets the small battery pack cross its SOC window in one step
 pub const DTS: [f64; 4] = [1.0, 0.25, 4.0, 20.0];
 /// engine command letters (C08 only): on / None / off
@@ -24,6 +25,9 @@ pub struct Letter {
 }
 
 pub fn demand_value(d: usize, m: f64, r: f64, drv: f64) -> f64 {
+    demand_value_aux(d, m, r, drv, 0.0)
+}
+pub fn demand_value_aux(d: usize, m: f64, r: f64, drv: f64, aux: f64) -> f64 {
     match DEMANDS[d] {
         "0.6M" => 0.6 * m,
         "0" => 0.0,
@@ -37,6 +41,7 @@ pub fn demand_value(d: usize, m: f64, r: f64, drv: f64) -> f64 {
         "-R" => -r,
         "-(R+D)/2" => -(r + drv) / 2.0,
         "-D" => -drv,
+        "-0.5aux" => -0.5 * aux,
         _ => -1.01 * drv,
     }
 }
@@ -68,7 +73,7 @@ pub fn step_loco(loco: &mut Locomotive, demand: Result<usize, f64>, dt: f64, eng
         info.r = loco.state.pwr_regen_max.value;
         info.drv = loco.electric_drivetrain().map(|e| e.pwr_out_max.value).unwrap_or(0.0);
         info.demand = match demand {
-            Ok(d) => demand_value(d, info.m, info.r, info.drv),
+            Ok(d) => demand_value_aux(d, info.m, info.r, info.drv, loco.state.pwr_aux.value),
             Err(w) => w,
         };
         loco.solve_energy_consumption(info.demand * uc::W, dt * uc::S, engine_on).map_err(|e| format!("{e:#}"))?;
